@@ -1,9 +1,11 @@
 package harness
 
 import (
+	"context"
 	"encoding/binary"
 	"encoding/hex"
 	"encoding/json"
+	"errors"
 	"fmt"
 	"strings"
 	"time"
@@ -32,6 +34,9 @@ type ActSc struct {
 type RawClientSc struct {
 	Canary bool    `json:"canary,omitempty"`
 	Acts   []ActSc `json:"acts"`
+	// Refused: the server's connect hook refuses this connection. The client sends its first request (if any) and
+	// then only reads: the server must end the connection by itself
+	Refused bool `json:"refused,omitempty"`
 }
 
 type ConnFault struct {
@@ -132,6 +137,7 @@ func genC08(g *simrt.Tape, tier string) any {
 			}
 			cl.Acts = append(cl.Acts, act)
 		}
+		cl.Refused = g.Draw(8) == 0
 		sc.Clients = append(sc.Clients, cl)
 	}
 	// one or two canaries
@@ -296,6 +302,25 @@ func (w *serverWorld) runRawClient(sc *C08Sc, rc *rawClient) {
 	rc.conn = conn
 	st := ttlv.NewStream(conn, 0)
 	nreq := 0
+	if rc.sc.Refused {
+		s.Fault("connect-hook-refusal")
+		for _, a := range rc.sc.Acts {
+			if a.Kind == "send" {
+				_, _ = conn.Write(ttlv.MarshalTTLV(buildRequest(a.Req, name+".r1")))
+				break
+			}
+		}
+		var resp kmip.ResponseMessage
+		for st.Recv(&resp) == nil {
+			// (whether a refused connection gets an answer to what it already sent is not stated; it must end)
+		}
+		rc.brokeIt = true
+		_ = conn.Close()
+		rc.done = true
+		rc.doneAt = s.Now() - s.Jumped()
+		s.Eventf("client %s (refused) done", name)
+		return
+	}
 	sendFrame := func(frame []byte, frags int, rs *ReqSc, prefix string) {
 		if !rc.poison {
 			switch classify(frame) {
@@ -454,7 +479,24 @@ func execC08(x *X, scAny any) {
 		}
 		return out
 	}
-	w.startServer(func(name string) simnet.EP {
+	refused := map[string]bool{}
+	for i, c := range sc.Clients {
+		if c.Refused && !c.Canary {
+			refused[fmt.Sprintf("c%d.s.peer", i)] = true
+		}
+	}
+	var configure func(*kmipserver.Server)
+	if len(refused) > 0 {
+		configure = func(srv *kmipserver.Server) {
+			srv.WithConnectHook(func(ctx context.Context) (context.Context, error) {
+				if refused[kmipserver.RemoteAddr(ctx)] {
+					return ctx, errors.New("refused by the connect hook")
+				}
+				return ctx, nil
+			})
+		}
+	}
+	w.startServerWith(func(name string) simnet.EP {
 		ep := simnet.EP{Chunk: sc.Chunk, Capacity: sc.Capacity}
 		var idx int
 		if n, _ := fmt.Sscanf(name, "c%d", &idx); n == 1 {
@@ -462,7 +504,7 @@ func execC08(x *X, scAny any) {
 			ep.Plan = planFor(idx)
 		}
 		return ep
-	}, 0)
+	}, 0, configure)
 	clients := make([]*rawClient, len(sc.Clients))
 	tasks := make([]*simrt.Task, len(sc.Clients))
 	for i := range sc.Clients {
@@ -658,6 +700,11 @@ func c08FaultFloor(tier string) []*C08Sc {
 			}
 			acts = append(acts, ActSc{Kind: "stop"})
 			out = append(out, &C08Sc{StalledShutdown: true, Capacity: capy, Clients: []RawClientSc{{Acts: acts}, {Canary: true, Acts: c08BaseWorkload().Clients[1].Acts}}})
+		}
+	}
+	for _, acts := range [][]ActSc{nil, {{Kind: "send", Req: ok1}}} {
+		for _, ch := range []int{simnet.ChunkMax, simnet.ChunkByte} {
+			out = append(out, &C08Sc{Chunk: ch, Clients: []RawClientSc{{Refused: true, Acts: acts}, {Canary: true, Acts: c08BaseWorkload().Clients[1].Acts}}})
 		}
 	}
 	for _, p := range c08Presets {
